@@ -43,6 +43,11 @@ struct Case {
 	/// only (a fee estimate), which advances the height the wallet reports but scans nothing
 	#[serde(default)]
 	observed_by_estimate: bool,
+	/// after the wallet has observed its height, the node it talks to reports a tip below the
+	/// cutoff (re-syncing / lagging node) and the wallet looks at it once: what it has already
+	/// observed must not be forgotten
+	#[serde(default)]
+	node_fell_back: bool,
 }
 
 #[derive(Clone, Debug, Serialize, Deserialize)]
@@ -146,6 +151,19 @@ fn run_case_inner(w: &World, c: &Case) -> Result<String, (String, String)> {
 		Cut::HPlus1 => h + 1,
 		Cut::Max => u64::MAX,
 	};
+	if c.node_fell_back && cutoff >= 2 && cutoff <= h {
+		let mut m = std::collections::HashMap::new();
+		for o in t.outputs() {
+			if o.status == OutputStatus::Unspent || o.status == OutputStatus::Locked {
+				m.insert(t.commit_of(&o), (o.height, 1 + o.n_child as u64));
+			}
+		}
+		*w.node.stub.lock().unwrap() = Some(crate::node::Stub { height: cutoff - 1, unspent: Some(m) });
+		let mut ea = default_args(1 * G);
+		ea.estimate_only = Some(true);
+		let _ = t.init_send(ea);
+		*w.node.stub.lock().unwrap() = None;
+	}
 	let mut slate = prep;
 	slate.ttl_cutoff_height = cutoff;
 	let slots = vec![slate.id];
@@ -346,12 +364,15 @@ pub fn run(_args: &[String]) -> i32 {
 		for cut in [Cut::Zero, Cut::One, Cut::HMinus1, Cut::H, Cut::HPlus1, Cut::Max].iter() {
 			for stale in (if thorough { vec![0u64, 1, 2] } else { vec![0u64, 2] }).iter() {
 				for others in (if thorough { vec![0u32, 1, 2] } else { vec![0u32, 2] }).iter() {
-					cases.push(Case { step: *step, cut: *cut, stale: *stale, others: *others, own_ttl: false, observed_by_estimate: false });
+					cases.push(Case { step: *step, cut: *cut, stale: *stale, others: *others, own_ttl: false, observed_by_estimate: false, node_fell_back: false });
+					if *stale == 0 && matches!(cut, Cut::HMinus1 | Cut::H) {
+						cases.push(Case { step: *step, cut: *cut, stale: *stale, others: *others, own_ttl: false, observed_by_estimate: false, node_fell_back: true });
+					}
 					if *stale > 0 {
-						cases.push(Case { step: *step, cut: *cut, stale: *stale, others: *others, own_ttl: false, observed_by_estimate: true });
+						cases.push(Case { step: *step, cut: *cut, stale: *stale, others: *others, own_ttl: false, observed_by_estimate: true, node_fell_back: false });
 					}
 					if *step == Step::ProcessInvoice {
-						cases.push(Case { step: *step, cut: *cut, stale: *stale, others: *others, own_ttl: true, observed_by_estimate: false });
+						cases.push(Case { step: *step, cut: *cut, stale: *stale, others: *others, own_ttl: true, observed_by_estimate: false, node_fell_back: false });
 					}
 				}
 			}
